@@ -5,6 +5,7 @@ import (
 	"encoding/json"
 	"fmt"
 	"sort"
+	"strings"
 
 	"github.com/elementsproject/peerswap/swap"
 	"pgregory.net/rapid"
@@ -36,6 +37,13 @@ func snapshotRecords(n *sim.Node) map[string]string {
 }
 
 func freshId(t *rapid.T) string {
+	// the requesting peer chooses the id: degenerate values (all zero, all ones) are legal ids
+	switch rapid.IntRange(0, 11).Draw(t, "freshid-shape") {
+	case 0:
+		return strings.Repeat("00", 32)
+	case 1:
+		return strings.Repeat("ff", 32)
+	}
 	return hex.EncodeToString(rapid.SliceOfN(rapid.Byte(), 32, 32).Draw(t, "freshid"))
 }
 
